@@ -122,7 +122,8 @@ class FindByGlob(Finder):
             founds.extend(self.star_search([Sid(ssid)], as_sid=False))
             debug("star read done")
 
-        founds = sorted(list(set(founds)), reverse=True)
+        # sorted segment by segment (a whole string sort would compare the separator "/" with characters of the names)
+        founds = sorted(list(set(founds)), key=lambda x: x.split("/"), reverse=True)
         # TODO: sort by row - and resort after each narrowing
         # pprint(founds)
         debug("found {} matches".format(len(founds)))
